@@ -6,7 +6,7 @@ CONSTANTS
   RetireAny = TRUE  GhostTails = TRUE  Tears = 1
   FreshStart = FALSE  InitSync = TRUE
   SyncIntent = TRUE  SyncData = TRUE  SyncClear = FALSE
-  JournalAll = TRUE  SuccTest = TRUE  SyncMarkers = TRUE  ClearSlot = TRUE
+  JournalAll = TRUE  SuccTest = TRUE  SyncMarkers = TRUE  ClearSlot = TRUE  FlushGivesUp = TRUE
 SPECIFICATION Spec
 INVARIANTS TypeOK CrashSafe Partition ExactAtQuiescence AckMeansDurable JournalClearAtAck LayoutAtAck MetaMatches
 CHECK_DEADLOCK FALSE
